@@ -363,16 +363,7 @@ func c03Lit(c *core.Ctx, r *core.Reporter) {
 			if per[key] > 1 {
 				key = fmt.Sprintf("%s#%d", key, per[fd.Name.Name+"/"+tn])
 			}
-			set := map[string]ast.Expr{}
-			var order []string
-			for _, el := range cl.Elts {
-				if kv, ok := el.(*ast.KeyValueExpr); ok {
-					if id, ok := kv.Key.(*ast.Ident); ok {
-						set[id.Name] = kv.Value
-						order = append(order, id.Name)
-					}
-				}
-			}
+			set, order := core.LiteralFields(info, fd, cl)
 			var miss []string
 			for _, f := range core.Fields(n) {
 				if core.N(f) == "Kind" || optionalNodeFields[tn+"."+core.N(f)] {
